@@ -15,7 +15,7 @@ The seeded changes measure detection. To measure the other side — *never raise
 sub-agents (property text + worktree only) were each asked for three realistic **behaviour-preserving** refactorings of the code their
 property is anchored in (extract / inline a helper, loop <-> iterator chain, `match` <-> `if let` / `let else`, merged match arms, local
 closures, code motion). Each agent compared the tool's outputs byte for byte before and after on hundreds to thousands of runs (shipped examples
-under all flag combinations plus hand-written and random inputs); I re-ran the pinned tests. Two more probes (`X00-1`, `X00-2`) are mine: they
+under all flag combinations plus hand-written and random inputs); I re-ran the pinned tests. Three more probes (`X00-1` .. `X00-3`) are mine: they
 only *rename* locals and parameters across the files the rules read (13 rules looked locals up by name; they now find them by role - the
 argument of a call, the field of a struct literal, the parameter position). The %d patches are kept in `probes/<id>/` and are negative
 controls (`R-<id>`) of the self-test.
